@@ -25,7 +25,7 @@
 use crate::{
     common::{
         constants,
-        error::{Error, KeyErrorType},
+        error::{Error, HyperErrorType, KeyErrorType},
         hyper_client, logger,
         result::Result,
     },
@@ -781,7 +781,17 @@ pub async fn acquire_key(base_url: &Uri) -> Result<Key> {
             response.status(),
         )));
     }
-    hyper_client::read_response_body(response).await
+    // the response body is the key document: a deserialization error must not echo it into the logs or the status message
+    hyper_client::read_response_body(response)
+        .await
+        .map_err(|e| match e {
+            Error::Hyper(HyperErrorType::Deserialize(_)) => {
+                Error::Hyper(HyperErrorType::Deserialize(
+                    "the key response body is not a valid key document".to_string(),
+                ))
+            }
+            e => e,
+        })
 }
 
 pub async fn attest_key(base_url: &Uri, key: &Key) -> Result<()> {
